@@ -183,6 +183,7 @@ pub fn laps() -> Vec<Lap> {
         Lap { three_readers_every: 0, name: "one-9-MiB-value-overwritten (24 transactions)", reopen_every: 0, reader_stretch: None, kind: 6 },
         Lap { three_readers_every: 0, name: "nested-bucket-then-ancestor-deleted-and-rebuilt", reopen_every: 0, reader_stretch: None, kind: 7 },
         Lap { three_readers_every: 3000, name: "fixed-size-overwrite-with-a-reader-dropped-by-a-panic-every-25", reopen_every: 0, reader_stretch: None, kind: 0 },
+        Lap { three_readers_every: 4000, name: "fixed-size-with-a-failed-final-sync-then-a-short-reader-every-50", reopen_every: 0, reader_stretch: None, kind: 0 },
         Lap { three_readers_every: 2000, name: "reopen-then-reader-before-the-first-writer-every-round", reopen_every: 0, reader_stretch: None, kind: 1 },
         Lap { three_readers_every: 1037, name: "variable-size-with-two-readers-of-the-same-snapshot-every-37 (first one closed early)", reopen_every: 0, reader_stretch: None, kind: 1 },
         Lap { three_readers_every: 60, name: "variable-size-with-three-overlapping-readers-every-60", reopen_every: 0, reader_stretch: None, kind: 1 },
@@ -278,7 +279,17 @@ pub fn run_lap(lap: &Lap, n: usize, path: &str) -> Value {
                 r.step(&Action::CloseReader(0), &Oracles::NONE);
             }
         }
-        if lap.three_readers_every == 3000 {
+        if lap.three_readers_every == 4000 {
+            // every 50 transactions: a commit whose final sync fails (it reports the error; its header
+            // is in the file), then a reader that begins and ends before the next writer
+            if i % 50 == 20 {
+                r.step(&Action::TxFail { ops: lap_ops(lap.kind, i + 5), call: 1001 }, &Oracles::NONE);
+                if !r.poisoned {
+                    r.step(&Action::OpenReader, &Oracles::NONE);
+                    r.step(&Action::CloseReader(0), &Oracles::NONE);
+                }
+            }
+        } else if lap.three_readers_every == 3000 {
             if i % 25 == 7 {
                 r.step(&Action::PanicWithReader, &Oracles::NONE);
             }
